@@ -91,7 +91,7 @@ def gen(rng, tier, open_keys):
             nrec = rng.choice([0, 1, 2, 3, 5, 8, 20, 60]) if not big else rng.choice([1, 2, 3])
             for _ in range(nrec):
                 v = gen_value(rng, mn, mx, sig, pool)
-                cnt = rng.choice([1, 1, 1, 2, 5, 1000])
+                cnt = rng.choice([1, 1, 1, 2, 5, 1000]) if i % 7 != 3 else rng.choice([1, 7, 100000, 250000, 999983])
                 pool.append(v)
                 ops.append(["rec", v, cnt]); total += cnt
                 if rng.random() < 0.1:
@@ -103,7 +103,15 @@ def gen(rng, tier, open_keys):
                     q = r * 100.0 / total
                     rr = int((q / 100) * float(total) + 0.5)
                     ops.append(["q", repr(q), rr])
-                for q in ((50.0, 90.0, 99.0, 99.9, 100.0, 150.0, rng.random() * 100) if not big else (99.9,)):
+                fine = []
+                if total > 5000:
+                    # fine-grained quantiles right at rank boundaries (more than two decimals): the rank is
+                    # int64(q/100*total+0.5), evaluated in IEEE doubles exactly as the code does
+                    for _ in range(6):
+                        r0 = rng.randrange(1, total + 1)
+                        fine += [(r0 - 0.4) * 100.0 / total, (r0 + 0.4) * 100.0 / total]
+                    fine += [99.976, 99.974, 0.004, 99.999]
+                for q in ((50.0, 90.0, 99.0, 99.9, 100.0, 150.0, rng.random() * 100) + tuple(fine) if not big else (99.9,)):
                     qq = min(q, 100.0)
                     ops.append(["q", repr(q), int((qq / 100) * float(total) + 0.5)])
             ops += [["min"], ["max"], ["reimport"], ["merge"]] if not big else [["max"], ["merge"]]
